@@ -1,5 +1,5 @@
 use super::field_utils::parse_party_identifier;
-use super::swift_utils::{parse_bic, parse_swift_chars};
+use super::swift_utils::{ensure_ascii, parse_bic, parse_swift_chars};
 use crate::errors::ParseError;
 use crate::traits::SwiftField;
 use serde::{Deserialize, Serialize};
@@ -57,6 +57,7 @@ impl SwiftField for Field58A {
     where
         Self: Sized,
     {
+        ensure_ascii(input, "Field 58")?;
         let lines: Vec<&str> = input.lines().collect();
 
         let mut party_identifier = None;
@@ -107,6 +108,7 @@ impl SwiftField for Field58D {
     where
         Self: Sized,
     {
+        ensure_ascii(input, "Field 58")?;
         let mut lines = input.lines().collect::<Vec<_>>();
         let mut party_identifier = None;
 
@@ -171,6 +173,7 @@ impl SwiftField for Field58 {
     where
         Self: Sized,
     {
+        ensure_ascii(input, "Field 58")?;
         // Try parsing as Field58A first (BIC-based)
         if let Ok(field) = Field58A::parse(input) {
             return Ok(Field58::A(field));
